@@ -141,9 +141,23 @@ TEXT['C15'] = dict(
     note=BOUNDED_NOTE + 'FFT round trip identity is the contract of scipy.fftpack (assumed in the deductive plan).',
     technique='bounded run-time checking against an independent mode-by-mode oracle under simulated MPI')
 
+TEXT['C08'] = dict(
+    category='other',
+    text='Bounded stand-in only so far: real interpolators against scipy B-splines on independently constructed knot vectors and a '
+         'dense collocation solve, over an exhaustive sweep of small spaces (1-D and 2-D, all boundary/degree combinations). '
+         'The index lemma S(x_i) = (mat c)_i of DESIGN C08 is planned.',
+    note=BOUNDED_NOTE,
+    technique='bounded run-time checking against an independent spline library and dense linear algebra')
+TEXT['C09'] = dict(
+    category='other',
+    text='Bounded stand-in only so far: stored basis integrals, quadrature weights and w.u against exact antiderivatives over the '
+         'same sweep of spaces, including repeated and shared use of one basis object.',
+    note=BOUNDED_NOTE + 'Found and fixed two genuine defects of BSplines._build_integrals (fix: fbde878, fb94ce5).',
+    technique='bounded run-time checking against exact spline antiderivatives')
+
 NOT_APPLICABLE = {
     'C19': 'compares compiled pyccel artefacts with their Python source: translation validation; no deductive verifier for the '
            'generated Fortran/C is installed (DESIGN.md, C19)',
 }
-for _p in ['C08', 'C09', 'C13']:
+for _p in ['C13']:
     NOT_APPLICABLE[_p] = 'check not built yet in this session (planned, see DESIGN.md); not claimed until its contracts discharge'
